@@ -50,7 +50,7 @@ def run(ctx, model_ok):
     ctx.rule = ('random event histories over 1-4 thread ids x 2-6 codes drawn from {trace-domain, decodable, '
                 'known-but-undecoded, unknown to the table} x the four qualifiers (START/END weighted), lengths 3..60 '
                 '(quick) / 400 (thorough), plus directed histories (re-opened START, crossing pairs, stray END, NONE '
-                'fragment inside its own window, domain mix); non-trivial = distinct history with a delivered END '
+                'fragment inside its own window, domain mix), plus large histories (1100..70000 threads, windows of 1500..66000 records, 300 calls open at once; implementation against the outputs written down by construction); non-trivial = distinct history with a delivered END '
                 'window of >= 3 records closed while >= 2 codes were open on that thread')
     cases = []
     for i, (h, r) in enumerate(zip(hs, res)):
@@ -71,6 +71,18 @@ def run(ctx, model_ok):
             cases.append(None)
             continue
         cases.append(pc.to_case(h, uni, r))
+    # scale: sizes at which a bounded table, cache or queue would show; expectations written down by construction
+    sc = pc.scale_histories(uni, ctx.quick())
+    sres = vlib.run_impl('run_pairing.py', {'histories': [h for _, h, _ in sc]}, timeout=3000)['results']
+    ctx.evaluations += len(sc)
+    for (name, h, exp), r in zip(sc, sres):
+        ctx.count('scale:' + name)
+        if r['outs'] != exp:
+            j = next(k for k in range(len(h)) if r['outs'][k] != exp[k])
+            ctx.failing.append({'input': {'scale_history': name, 'records': len(h), 'first_wrong_event': j, 'event': h[j]},
+                                'expected': {'window_for_event': j, 'indices': (exp[j] or [])[:6], 'length': len(exp[j] or [])},
+                                'actual': {'indices': (r['outs'][j] or [])[:6], 'length': len(r['outs'][j] or []) if r['outs'][j] is not None else None},
+                                'why': 'the window delivered for this event is not the one C04 demands (large history)'})
     ctx.samples = [{'history': hs[i], 'impl_windows': res[i]['outs']} for i in (len(hs) - 3, 0)]
     if model_ok:
         idx = [i for i, c in enumerate(cases) if c is not None]
